@@ -24,6 +24,9 @@ CHECKS = {
  "C19": dict(level="model_checking", ref="5 C19", tech="explicit-state breadth-first search over upgrade/downgrade session histories with real block commits, compared with a list model at every start-up",
    text="Per fork placement (all placements of two forks over heights 1..6; thorough adds three forks and height 7) a BFS over sessions (build version in {legacy,0,1,2,3} x blocks in {0,1,2}) of up to 3 (4) sessions; every start-up is the real node.NewPegnetd on a database produced by real DBlockSync commits and is compared with the model verdict.",
    note="A build's fork table is modelled as the forks whose minimum version it satisfies; legacy builds leave no version rows."),
+ "C20": dict(level="exploration", ref="5 C20", tech="bounded-exhaustive enumeration of byte strings (grammar-bounded JSON, all single-byte edits of canonical batches, all short decimal strings) against an independent recogniser / exact rational arithmetic",
+   text="About 28,000 batch contents (grammar-bounded member sequences with duplicate, case-variant and unknown keys at every level, value alphabets at the int64/uint64 edges, whitespace at every gap, every single-byte insertion/deletion/substitution of canonical batches; thorough: more batches and two-transaction sequences) go through the real fat2.NewTransactionBatch with a valid signature; every accepted string must be accepted by an independent strict recogniser and survive Marshal/decode. Every decimal string of length <= 6 (thorough 7) over `0159.-+e ` plus boundary whole parts x all fractions of <= 9 digits over {0,1,9} goes through cmd.FactoidToFactoshi and is compared with exact big-integer arithmetic.",
+   note="Alphabet- and length-bounded. JSON null as an amount and case-folded keys are not counted as non-canonical (the property's list does not name them)."),
 }
 
 NOT_YET = {}
